@@ -96,6 +96,16 @@ class Result(object):
 # -- configuration -----------------------------------------------------------------
 
 
+# names whose repr() carries formatting metacharacters: error messages are built from reprs
+ODD_NAMES = ("100%", "%s", "%d%%", "{0}", "{}", "{x}", "a%(b)s", "%", "{", "}}", "%r %r", "n\\n")
+
+
+def node_name(cfg, i):
+    if cfg.get("odd_names"):
+        return ODD_NAMES[i % len(ODD_NAMES)]
+    return "n%d" % i
+
+
 def gen_cfg(rng, prop, tier, allow_big=True):
     """Swarm-style per-run configuration (plain data)."""
     thorough = tier == "thorough"
@@ -223,6 +233,7 @@ def gen_cfg(rng, prop, tier, allow_big=True):
         nodes = None if rng.random() < 0.4 else sorted(rng.sample(range(n_nodes), rng.randint(1, n_nodes)))
         cfg["persist_spec"] = [[rng.choice(hooks), nodes, rng.choice(cfg["excs"])]]
     cfg["hook_super"] = rng.random() < 0.5  # the users' hook overrides also call the library's implementation
+    cfg["odd_names"] = prop in ("C01", "C02", "C03", "C16") and rng.random() < 0.15
     return cfg
 
 
@@ -364,7 +375,7 @@ def gen_op(rng, model, cfg, step):
         op = {"op": "del", "n": n}
     else:
         cls = rng.choice(cfg["menu"])
-        op = {"op": "new", "cls": cls, "name": "n%d" % n_nodes}
+        op = {"op": "new", "cls": cls, "name": node_name(cfg, n_nodes)}
         if cls in LINK_CLASSES:
             op["target"] = rng.randrange(n_nodes)
         r = rng.random()
@@ -725,7 +736,7 @@ def build_world(cfg, world=None):
     model = ForestModel()
     for i, cls in enumerate(cfg["classes"]):
         t = cfg["targets"][i]
-        world.new(world.class_for(cls), "n%d" % i, target=None if t is None else world.nodes[t])
+        world.new(world.class_for(cls), node_name(cfg, i), target=None if t is None else world.nodes[t])
         model.add(FAMILY[cls])
     for i, p in enumerate(cfg.get("init_parents") or ()):
         if p is not None:
